@@ -9,7 +9,7 @@ subprocess.check_call(["git","-C","/repo","worktree","add","-q","--detach",WT,"H
 def sh(cmd, cwd=WT):
     return subprocess.run(cmd, shell=True, cwd=cwd, capture_output=True, text=True, env=env)
 only = sys.argv[1:]
-for d in sorted(glob.glob("/tmp/seed/C*/out/m*")):
+for d in sorted(glob.glob(os.environ.get("SEED_BASE","/tmp/seed")+"/C*/out/m*")):
     pid = d.split("/")[3]; k = os.path.basename(d)
     name = f"{pid}-{k}"
     if only and pid not in only: continue
